@@ -595,7 +595,23 @@ def r16(ctx):
                 ctx.inst(R, f"{b.id}:seq-order#{nth(cnt, b.id)}", not bad, st["s"], "ordering test on a wrapping difference / a length" if not bad else
                          f"`{b.id}` compares two raw sequence numbers with `{r['op']}`: once the unacknowledged window straddles 2^32 the test is false for every acceptable "
                          "acknowledgement - snd_una stops advancing and the connection times out on a link that lost nothing")
-    ctx.floor(R, 3)
+    # ... and never leave the 32-bit ring: widening a raw sequence number (`snd_una as u64 + window`) and comparing / subtracting there is
+    # the same mistake in other clothes - right until snd_nxt wraps while snd_una has not
+    wide = []
+    for b in sorted(ctx.w.bodies.values(), key=lambda x: x.id):
+        if b.crate != "turmoil_net" or "kernel::tcp" not in b.id:
+            continue
+        for bb, i, st in b.all_stmts():
+            r = st["r"]
+            if i == "term" or r["k"] != "cast":
+                continue
+            og = origin(b, r["o"])
+            if og["k"] == "place" and ("field:" + (place_last_field(og["p"]) or "")) in SEQ and b.ty_str(r["ty"]) in ("u64", "i64", "usize", "u128", "i128", "isize"):
+                wide.append((b.id, st["s"]))
+    ctx.inst(R, "seq-never-widened", not wide, wide[0][1] if wide else "", "no raw sequence number is widened before arithmetic" if not wide else
+             f"`{wide[0][0]}` widens a raw sequence number to a wider integer: arithmetic on it no longer wraps with the sequence space - once snd_nxt has passed 2^32 and snd_una "
+             "has not, the remaining send window evaluates to ~4 * 10^9 and the whole send buffer goes out against a small advertised window")
+    ctx.floor(R, 4)
     from . import C19
     C19.r4(ctx)   # the fixture's queue is ordered by (deadline, emission number): a packet parked for long must not block the ones due before it
 
